@@ -1081,7 +1081,7 @@ def built_invariant(S, cls):
         out.append(('knot_derivative_rows', conj([S.v(f).R.eq(n + 1) for f in KNOT_FIELDS[cls]])))
         out.append(('one_cached_block_per_interior_knot', implies(nb > 0, S.v('L_blocks_cache_').R.eq(nb) & S.v('U_blocks_cache_').R.eq(nb) & S.v('D_inv_cache_').R.eq(nb)) &
                     implies(nb > 1, S.v('D_inv_T_mul_L_next_T_cache_').R >= nb - 1)))
-        out.append(('cached_blocks_factorise_the_optimality_system', S.forall(0, nb, lambda k: block_factor_facts(S, cls, k, dims(S)[0]), inst=[S.sk(0), S.sk(0) - 1])))
+        out.append(('cached_blocks_factorise_the_optimality_system', S.forall(0, nb, lambda k: block_factor_facts(S, cls, k, dims(S)[0]), inst=[S.sk(0), S.sk(0) - 1, S.sk(0) + 1, 0, nb - 1])))
     return out
 
 
